@@ -480,13 +480,22 @@ fn wr_inner(f: &Fields) -> (Result<(), String>, Shared, Option<Vec<u8>>) {
             ) -> Result<(), String> {
                 let mut w = FlacByteWriter::endian(io.clone(), e, opts, rate, bps, ch, total).map_err(|e| errclass(&e))?;
                 let mut pos = 0;
+                // (on a refused write the stream as it is at that moment is kept: an encode abandoned after the error)
                 for c in chunks {
                     let end = (pos + c).min(raw.len());
-                    w.write_all(&raw[pos..end]).map_err(|e| ioclass(&e))?;
+                    if let Err(e) = w.write_all(&raw[pos..end]) {
+                        *prefin = Some(io.data());
+                        std::mem::forget(w);
+                        return Err(ioclass(&e));
+                    }
                     pos = end;
                 }
                 if pos < raw.len() {
-                    w.write_all(&raw[pos..]).map_err(|e| ioclass(&e))?;
+                    if let Err(e) = w.write_all(&raw[pos..]) {
+                        *prefin = Some(io.data());
+                        std::mem::forget(w);
+                        return Err(ioclass(&e));
+                    }
                 }
                 *prefin = Some(io.data());
                 if fin { w.finalize().map_err(|e| errclass(&e)) } else { drop(w); Ok(()) }
@@ -502,11 +511,19 @@ fn wr_inner(f: &Fields) -> (Result<(), String>, Shared, Option<Vec<u8>>) {
             let mut pos = 0;
             for c in &chunks {
                 let end = (pos + c).min(pcm.len());
-                w.write(&pcm[pos..end]).map_err(|e| errclass(&e))?;
+                if let Err(e) = w.write(&pcm[pos..end]) {
+                    prefin = Some(io.data());
+                    std::mem::forget(w);
+                    return Err(errclass(&e));
+                }
                 pos = end;
             }
             if pos < pcm.len() {
-                w.write(&pcm[pos..]).map_err(|e| errclass(&e))?;
+                if let Err(e) = w.write(&pcm[pos..]) {
+                    prefin = Some(io.data());
+                    std::mem::forget(w);
+                    return Err(errclass(&e));
+                }
             }
             prefin = Some(io.data());
             if fin { w.finalize().map_err(|e| errclass(&e)) } else { drop(w); Ok(()) }
@@ -525,7 +542,11 @@ fn wr_inner(f: &Fields) -> (Result<(), String>, Shared, Option<Vec<u8>>) {
                     break;
                 }
                 let part: Vec<&[i32]> = planar.iter().map(|p| &p[pos..end]).collect();
-                w.write(&part).map_err(|e| errclass(&e))?;
+                if let Err(e) = w.write(&part) {
+                    prefin = Some(io.data());
+                    std::mem::forget(w);
+                    return Err(errclass(&e));
+                }
                 pos = end;
             }
             prefin = Some(io.data());
@@ -895,8 +916,14 @@ pub fn crash(f: &Fields) -> String {
     g.insert("fin".to_string(), "0".to_string());
     g.insert("log".to_string(), "1".to_string());
     let (res, io, prefin) = wr_inner_keep(&g);
+    let mut refused = String::new();
     if let Err(e) = res {
-        return format!("err {} stage=write", e);
+        // `overfill=1`: more data than the declared total is offered; the refusal is expected and the stream is examined as it stands
+        if get(f, "overfill") == "1" && prefin.is_some() {
+            refused = format!(" refused={}", e);
+        } else {
+            return format!("err {} stage=write", e);
+        }
     }
     let s = match prefin {
         Some(s) => s,
@@ -981,13 +1008,14 @@ pub fn crash(f: &Fields) -> String {
         items.push(format!("{}:{}:{}:{}", cut, delivered.len() / ch, status.split(':').next().unwrap_or(""), if m { 1 } else { 0 }));
     }
     format!(
-        "ok slen={} metalen={} ends={} lens={} s={} cutres={}",
+        "ok slen={} metalen={} ends={} lens={} s={} cutres={}{}",
         s.len(),
         metalen,
         join(ends.iter()),
         join(lens.iter()),
         hex(&s),
-        if items.is_empty() { "-".to_string() } else { items.join(",") }
+        if items.is_empty() { "-".to_string() } else { items.join(",") },
+        refused
     )
 }
 
